@@ -25,7 +25,7 @@ const proc = "c17echo"
 // loses this signal (holds run into their caps, nothing is asserted from the absence of the line).
 const unknownPrefix = "Response message received for unknown request ID"
 
-const maxConns = 3
+const maxConns = 4 // cases use 2-3; the fourth node serves as the third responder host of identical-payload groups
 
 // obsLogger swallows everything (log.NewSilentLogger still prints errors) and reports the "unknown request ID" warning.
 type obsLogger struct{}
